@@ -101,3 +101,29 @@ Proof. split; [vm_compute; reflexivity|]. split; [vm_compute; congruence|]. spli
 Example C06_nonvacuous :
   rule2v G OMul (L BInt) (L BInt) (2 ^ 1100) (- 3) = Fold (L BInt) (VInt (- 3 * 2 ^ 1100)).
 Proof. rewrite fold_mul by (left; reflexivity). rewrite Z.mul_comm. reflexivity. Qed.
+
+(* ---- program level: EVERY accepted program of the scalar fragment.  A value whose defining expression is built
+   from literals only — through any number of intermediate variables, with inputs and other operations in
+   between — is a literal of the ruled base type carrying exactly the value that plain arithmetic
+   (Spec/FoldSpec.exact2; floor division and modulo for a non-zero divisor; boolean negation; k + x) gives. *)
+From NadaV.Model Require Import Surface Trace Compile Mir Corr.
+From NadaV.Proofs Require Import C02Program C06Program.
+
+Theorem C06_literal_only_values_are_exact : forall ss fuel ρ s,
+  exec GenScalar.G fuel [] ss init_state = Ok (ρ, s) -> scalar_fragment ss = true ->
+  forall x b z, assoc x (lit_stmts ss []) = Some (Some (b, z)) ->
+  exists id, assoc x ρ = Some (BWrap (WScalar (MConst, b) id (Some z)))
+             /\ forall i, id = Some i -> exists r, lookup i (store s) = Some r /\ r_ty r = TyName (mir_name (MConst, b)).
+Proof. exact literal_only_values_are_exact. Qed.
+Print Assumptions C06_literal_only_values_are_exact.
+
+Definition c06_example : list stmt :=
+  [SLet "a" (RLit BInt (-7)); SLet "b" (RLit BInt 2); SLet "s" (RInput "s" "P" "" (IScalar (MSecret, BInt)));
+   SLet "q" (RBin ODiv "a" "b"); SLet "m" (RBin OMod "a" "b"); SLet "p" (RBin OPow "b" "b");
+   SLet "c" (RBin OLt "q" "m"); SLet "n" (RNot "c"); SLet "t" (RBin OMul "q" "s"); SLet "k" (RRAdd 10 "p")].
+Example C06_program_nonvacuous :
+  (exists ρ s, exec GenScalar.G 20 [] c06_example init_state = Ok (ρ, s))
+  /\ lit_stmts c06_example []
+     = [("k", Some (BInt, 14%Z)); ("t", None); ("n", Some (BBool, 0%Z)); ("c", Some (BBool, 1%Z)); ("p", Some (BInt, 4%Z));
+        ("m", Some (BInt, 1%Z)); ("q", Some (BInt, (-4)%Z)); ("s", None); ("b", Some (BInt, 2%Z)); ("a", Some (BInt, (-7)%Z))].
+Proof. split; [eexists; eexists; vm_compute; reflexivity | vm_compute; reflexivity]. Qed.
